@@ -25,7 +25,7 @@ from .. import cases as C
 from .. import sexpr
 from ..sexpr import Sym, Vec, Dotted
 
-IMPORTS = ("(import (scheme base) (scheme write) (scheme process-context) "
+IMPORTS = ("(import (scheme base) (scheme write) (scheme process-context) (scheme case-lambda) (scheme lazy) "
            "(only (chibi) er-macro-transformer sc-macro-transformer rsc-macro-transformer make-syntactic-closure))")
 
 KEYWORDS = ["if", "let", "begin", "quote", "else", "=>", "_", "...", "lambda", "define", "set!", "cond", "case", "and",
@@ -154,14 +154,21 @@ LOOP_EXIT = {
 SHAPES = []
 
 
-def shape(name, macros, prog, expect, defs="", tdefs="", top=(), idef=(), kinds=None):
+def shape(name, macros, prog, expect, defs="", tdefs="", top=(), idef=(), kinds=None, extra=""):
     if isinstance(macros, str):
         macros = {"S": macros}
     for k, text in macros.items():
         if kinds and k not in kinds:
             continue
         SHAPES.append({"name": name, "kind": k, "macros": text, "defs": defs, "tdefs": tdefs, "prog": prog,
-                       "expect": expect, "top": list(top), "idef": list(idef)})
+                       "expect": expect, "top": list(top), "idef": list(idef), "extra": extra.split()})
+
+
+def std(name, prog, expect, extra, idef=()):
+    """A use of a macro of the standard libraries; `extra` = identifiers its definition introduces or uses as
+    pattern variables (lib/init-7.scm, lib/scheme/misc-macros.scm, lib/scheme/define-values.scm, lib/srfi/11.sld,
+    lib/srfi/16.sld, lib/srfi/39/syntax.scm) -- the 'temporaries used inside a macro definition' of the statement."""
+    shape(name, {"STD": ""}, prog, expect, idef=idef, extra=extra)
 
 
 shape("or-temp", MY_OR, "(let ((?x 5)) (%scope (?x) (my-or #f ?x)))", "5")
@@ -235,8 +242,59 @@ shape("introduced-lambda-args", KONST, "(let ((?x 4)) (%scope (?x) ((konst ?x) 1
 shape("do-loop", DBL, "(%scope (?i ?s) (do ((?i 0 (+ ?i 1)) (?s 0 (+ ?s (dbl ?i)))) ((= ?i 3) ?s)))", "6", defs=HELPER,
       kinds=("S", "ER"))
 shape("named-let", MY_OR,
-      "(%scope (?lp ?n ?r) (let ?lp ((?n 3) (?r 0)) (if (= ?n 0) ?r (?lp (- ?n 1) (my-or #f (+ ?r ?n))))))", "6",
+      "(let ?lp ((?n 3) (?r 0)) (%scope (?lp) (%scope (?n ?r) (if (= ?n 0) ?r (?lp (- ?n 1) (my-or #f (+ ?r ?n)))))))", "6",
       kinds=("S", "ER"))
+
+
+std("std-or", "(let ((?t 5)) (%scope (?t) (or #f ?t)))", "5", "tmp expr")
+std("std-cond-arrow", "(let ((?x '(1 2)) (?t 9)) (%scope (?x ?t) (cond ((memv 2 ?x) => car) (else ?t))))", "2", "tmp cl expr")
+std("std-cond-test-only", "(let ((?x #f) (?t 9)) (%scope (?x ?t) (cond (?x) (?t))))", "9", "tmp cl expr")
+std("std-case-arrow", "(let ((?x 2) (?f list)) (%scope (?x ?f) (case ?x ((1) 'k1) ((2 3) => ?f) (else 'k2))))", "(2)",
+    "tmp exprs ls body clause expr")
+std("std-do", "(%scope (?i ?acc) (do ((?i 0 (+ ?i 1)) (?acc '() (cons ?i ?acc))) ((= ?i 3) ?acc)))", "(2 1 0)",
+    "lp tmp body check wrap expr")
+std("std-do-test-value", "(%scope (?i) (do ((?i 0 (+ ?i 1))) ((and (> ?i 2) ?i))))", "3", "lp tmp body check wrap expr")
+std("std-named-let", "(let ?lp ((?n 3) (?r 0)) (%scope (?lp) (%scope (?n ?r) (if (= ?n 0) ?r (?lp (- ?n 1) (+ ?r ?n))))))",
+    "6", "vars vals bindings res expr")
+std("std-named-let-label-unused", "(let ?lp ((?n 3) (?r 1)) (%scope (?lp) (%scope (?n ?r) (+ ?n ?r))))", "4",
+    "vars vals bindings res expr")
+std("std-let-values",
+    "(let-values (((?a ?b) (values 1 2)) ((?c . ?d) (values 3 4 5))) (%scope (?a ?b ?c ?d) (list ?a ?b ?c ?d)))",
+    "(1 2 3 (4 5))", "tmp binds bind maps params rest expr old-expr x y body")
+std("std-let*-values",
+    "(let*-values (((?a ?b) (values 1 2)) ((?c) (%scope (?a ?b) (values (+ ?a ?b))))) (%scope (?a ?b ?c) (list ?a ?b ?c)))",
+    "(1 2 3)", "params rest expr body")
+std("std-define-values", "(let () (%scope (?a ?b ?c) (define-values (?a ?b ?c) (values 1 2 3)) (list ?a ?b ?c)))",
+    "(1 2 3)", "v var0 var1 varn dummy args var expr", idef=("a", "b", "c"))
+std("std-define-values-dot", "(let () (%scope (?a ?b ?r) (define-values (?a ?b . ?r) (values 1 2 3 4)) (list ?a ?b ?r)))",
+    "(1 2 (3 4))", "v var0 var1 varn var-dot dummy args var expr", idef=("a", "b", "r"))
+std("std-parameterize", "(let ((?p (make-parameter 1)) (?v 5)) (%scope (?p ?v) (parameterize ((?p ?v)) (list (?p) ?v))))",
+    "(5 5)", "old new ptmp vtmp param value cons-new args rest body")
+std("std-case-lambda",
+    "(let ((?f (case-lambda ((?a) (%scope (?a) (list 1 ?a))) ((?b ?c) (%scope (?b ?c) (list 2 ?b ?c))) "
+    "((?d . ?e) (%scope (?d ?e) (list 3 ?d ?e)))))) (%scope (?f) (list (?f 1) (?f 2 3) (?f 4 5 6))))",
+    "((1 1) (2 2 3) (3 4 (5 6)))", "args len n p params x y body rest clauses")
+std("std-guard",
+    "(let ((?x 1) (?y 2)) (%scope (?x ?y) (guard (?e (%scope (?e) ((symbol? ?e) (list ?e ?x)) ((string? ?e) ?y))) "
+    "(+ ?x (raise 'boom)))))", "(boom 1)",
+    "guard-k condition handler-k reraise temp res var clause test result e1 e2 result1 result2 clause1 clause2")
+std("std-guard-arrow",
+    "(let ((?x 1)) (%scope (?x) (guard (?e (%scope (?e) ((assq 'k1 ?e) => cdr) ((assq 'k2 ?e)))) "
+    "(raise (list (cons 'k1 (+ ?x 41)))))))", "42",
+    "guard-k condition handler-k reraise temp res var clause test result e1 e2 result1 result2 clause1 clause2")
+std("std-guard-no-raise", "(let ((?x 1)) (%scope (?x) (guard (?e (%scope (?e) (#t (list ?e ?x)))) (+ ?x 1))))", "2",
+    "guard-k condition handler-k reraise temp res var clause test result e1 e2")
+std("std-delay", "(let ((?x 3)) (%scope (?x) (force (delay (+ ?x 1)))))", "4", "promise expr")
+std("std-when-unless",
+    "(let ((?x 3) (?y 0)) (%scope (?x ?y) (when (> ?x 2) (set! ?y (+ ?x 1))) (unless (> ?x 5) (set! ?y (+ ?y 1))) ?y))",
+    "5", "test body")
+std("std-quasiquote",
+    "(let ((?x 1) (?y '(2 3))) (%scope (?x ?y) (quasiquote (k1 (unquote ?x) (unquote-splicing ?y) k2))))",
+    "(k1 1 2 3 k2)", "qq x d expr")
+std("std-letrec",
+    "(%scope (?ev ?od) (letrec ((?ev (lambda (?n) (%scope (?n) (if (= ?n 0) #t (?od (- ?n 1)))))) "
+    "(?od (lambda (?m) (%scope (?m) (if (= ?m 0) #f (?ev (- ?m 1))))))) (list (?ev 4))))", "(#t)", "defs expr x")
+std("std-let*", "(let* ((?a 1) (?b (%scope (?a) (+ ?a 1)))) (%scope (?a ?b) (list ?a ?b)))", "(1 2)", "expr x")
 
 
 # ---------------------------------------------------------------------------------------------------------------
@@ -392,6 +450,7 @@ class Family:
             k = "idef"
         out = [(n, "fresh") for n in FRESH[:2]]
         out += [(n, "template-temp") for n in self.tmpl]
+        out += [(n, "template-temp") for n in self.sh["extra"] if n not in self.tmpl]
         if k == "top":
             return [(n, kd) for n, kd in out if n != v]
         for n in self.plain_macro:
@@ -556,8 +615,9 @@ def check(rep, tier, seed, variant="hooks", scale=None):
         rep.case((fam.sh["name"], fam.sh["kind"], fam.placement, coll))
         for k in coll:
             rep.count("collision_" + k)
+        shared = sorted("%s=%s" % (a_, b_) for a_ in fam.vars for b_ in fam.vars if a_ < b_ and names[a_] == names[b_])
         sig0 = {"shape": fam.sh["name"], "macro": fam.sh["kind"], "placement": fam.placement,
-                "collision": "+".join(coll)}
+                "collision": "+".join(coll), "same_name": "+".join(shared) or "none"}
         wit = {"program": text, "renaming": renamed, "expected": fam.sh["expect"]}
         if r is None or r.status == "missing":
             rep.inconc("no-output", cid)
